@@ -270,6 +270,23 @@ PROPS = {
   'trusted_base': ['hand models tied by differential execution', 'independent reference decoder harness/src/c03.rs'],
   'assumptions': ['single (non-animated) image, as the property states', 'NoCompression / UltraFast-fallback paths bypass filtering (checked by round trip only)'],
  },
+ 'C20': {
+  'level_text': 'Coq theorems (closed under the global context): Latin-1 coding maps every byte string to the string with the same code points and back; a string is refused if and only if it has a code point above 255; for the '
+                'text-chunk state machine (compress_text / decompress_text_with_limit) over ANY compressor K and bounded inflater I meeting the codec contract: both operations are idempotent, mutually inverse, a failed '
+                'decompression yields no new state (the chunk stays the compressed, usable one) and a successful bounded decompression never holds more than the limit. The reference instance of I that the correspondence '
+                'check executes is proved bounded. The contract of the real codecs (fdeflate / flate2) and the allocation behaviour are checked on every run (counting allocator).',
+  'level_note': 'Trusted: Coq kernel; hand model coq/Model/Text.v of text_metadata.rs tied by differential execution (Latin-1 both directions on all single and paired byte values; bounded inflate on bombs/corrupt payloads); '
+                'the codec contract [I (K raw) n = Ok raw for |raw| <= n; outputs bounded by n; outputs are bytes] is a hypothesis about fdeflate/flate2, exercised by the harness, not proved. UTF-8 validity of iTXt is std::str::from_utf8 (checked by the harness against the Coq utf8_valid in C16).',
+  'gen_items': [],
+  'model_name': 'Model/Text.v decode_latin1, encode_latin1, compress_text, decompress_text_with_limit, inflate_bounded',
+  'rule': 'cases = (a) every byte value and every pair of byte values with a high byte (all 255^2 in the thorough tier) as tEXt / zTXt payloads decoded by the crate, and the corresponding strings encoded through Encoder::add_text_chunk; '
+          'strings with code points above 255 at every position class; the same through the extracted model; (b) random Latin-1 / Unicode strings of 0..70000 (400000) characters through compress/decompress/get_text/limits on '
+          'ZTXtChunk and ITXtChunk objects (idempotence, inverse, failure leaves chunk usable, exact-limit success, limit-1 failure); (c) iTXt payloads from a UTF-8 fragment alphabet (valid and invalid); (d) bombs (30-200 MB of one byte), '
+          'corrupted and random payloads x limits {0,1,1023..1025,32767..32769,2 MiB}: peak heap growth measured by a counting allocator must stay below 3*limit + 70000, result Ok only if the text fits, and equal to the model\'s for small payloads. '
+          'distinct = (kind, length class, high-byte presence / payload, limit).',
+  'trusted_base': ['hand model tied by differential execution', 'codec contract of fdeflate / flate2 (Section hypotheses inflate_compress, bounded, inflate_bytes of Proofs/TextProofs.v)', 'counting global allocator harness/src/alloc.rs'],
+  'assumptions': ['a Rust String is the list of its Unicode scalar values', 'peak allocation bound 3*limit + 70000 bytes (output buffer + String conversion + decompressor tables) is the harness\'s reading of "never materialises more than that many bytes"'],
+ },
 }
 
 NOT_APPLICABLE = {}
